@@ -229,6 +229,9 @@ def runCItem (eid : Nat) (it : CItem) : M Unit := do
     let _ ← connEnqueue sub.cid (.accessAnswer sub.uid a)
     throttleDone th
     removeCount eid 1
+  | .httpAccessDone sub h a ms =>
+    let _ ← connEnqueue sub.cid (.httpAccess h sub.uid a ms)
+    removeCount eid 1
   | .callDone k a =>
     let cid := match k with
       | .call cid _ _ => cid
